@@ -366,8 +366,28 @@ func (g *gen) hostilePut() m.Put {
 	for n := g.rng.Intn(3); n > 0; n-- {
 		p.Idx = append(p.Idx, m.IdxE{N: m.K(g.pick(idxNames)), K: m.K(g.pick(idxKeys))})
 	}
+	// hostile secondary-index declarations (OxiaDb.tla "Secondary-index declarations"): empty names, names and
+	// secondary keys with '/', the separator byte, repeated and colliding declarations, many declarations
+	switch x := g.rng.Intn(8); {
+	case x < 2:
+		for n := 1 + g.rng.Intn(3); n > 0; n-- {
+			p.Idx = append(p.Idx, m.IdxE{N: m.K(g.pick(hostileIdxNames)), K: m.K(g.pick(hostileIdxKeys))})
+		}
+		if len(p.Idx) > 1 && g.rng.Intn(2) == 0 {
+			p.Idx = append(p.Idx, p.Idx[g.rng.Intn(len(p.Idx))]) // repeated
+		}
+	case x == 2:
+		p.Idx = append(p.Idx, m.IdxE{N: m.K("a"), K: m.K("b/c")}, m.IdxE{N: m.K("a/b"), K: m.K("c")}) // the same entry key
+	case x == 3 && g.rng.Intn(3) == 0:
+		for n := 20 + g.rng.Intn(100); n > 0; n-- {
+			p.Idx = append(p.Idx, m.IdxE{N: m.K(g.pick(append(hostileIdxNames, idxNames...))), K: m.K(fmt.Sprintf("%s%d", g.pick(hostileIdxKeys), g.rng.Intn(30)))})
+		}
+	}
 	return p
 }
+
+var hostileIdxNames = []string{"", "", "a/b", "/", "i/", "/i", "i//j", "\x01", "i\x01b", "__oxia/idx", "%2F", "i"}
+var hostileIdxKeys = []string{"", "", "b/c", "/", "\x01", "b\x01a", "b", "%", "~"}
 
 func (g *gen) hostileRequest() m.Req {
 	r := m.Req{Puts: []m.Put{}, Dels: []m.Del{}, Rngs: []m.Rng{}}
